@@ -406,6 +406,14 @@ def m_abs_string(ex, st, callee, args):
     return [(None, Opaque("String", (callee.split("::")[-1], tuple(repr(a)[:40] for a in args))))]
 
 
+def m_abs_string_eq(ex, st, callee, args):
+    """equality of two abstract strings: an arbitrary boolean"""
+    a, b = _strlit(ex, st, args[0]), _strlit(ex, st, args[1])
+    if a is not None and b is not None:
+        return [(None, boolv((a.data == b.data) != callee.endswith("::ne")))]
+    return [(None, ex.fresh("bool", "streq"))]
+
+
 def m_str_repeat(ex, st, callee, args):
     return [(None, Opaque("String", ("repeat",)))]
 
@@ -530,6 +538,7 @@ def base_models():
     m.add(r"^core::slice::<impl \[.*\]>::first(_mut)?$", m_slice_first)
     m.add(r"^core::slice::<impl \[.*\]>::last(_mut)?$", m_slice_last)
     m.add(r"^<str as PartialEq>::(eq|ne)$", m_str_eq)
+    m.add(r"^<String as PartialEq>::(eq|ne)$", m_abs_string_eq)
     m.add(r"^String::as_str$|^<String as Deref>::deref$", m_str_view)
     m.add(r"^std::rt::panic_fmt$|^core::panicking::panic(_fmt|_display|_explicit)?(::<.*>)?$|^std::rt::begin_panic", m_panic_fmt)
     m.add(r"^<(String|str) as ToOwned>::to_owned$", m_abs_string)
